@@ -9,7 +9,7 @@ SM = "src/smtmapping.rs"
 UNIT = Unit(
     name="seal", lemma_obs=['lemma_chain_next'], uses="group_core_axioms",
     prelude=["core.rs", "raw.rs", "iter.rs", "crypto.rs", "state_abs.rs"],
-    lemmas=["sums.rs", "iterlem.rs", "coinsview.rs", "tips.rs", "apply.rs", "header.rs", "seal_opaque.rs", "stateinv.rs", "batch_opaque.rs", "seal_def.rs", "feemul.rs"],
+    lemmas=["sums.rs", "iterlem.rs", "coinsview.rs", "tips.rs", "apply.rs", "header.rs", "seal_opaque.rs", "stateinv.rs", "batch_opaque.rs", "sealenv_opaque.rs", "seal_def.rs", "feemul.rs"],
     items=[
         TypeItem(S, "struct", "UnsealedState"),
         TypeItem(S, "struct", "SealedState", subst=[("(UnsealedState<C>, Option<ProposerAction>)", "(pub UnsealedState<C>, pub Option<ProposerAction>)")]),
@@ -87,7 +87,9 @@ UNIT = Unit(
         Fn(S, "apply_block", impl="SealedState", home="C06", implicit_props=("C09", "C06", "C16"),
            requires=[C("pre", "chain_ok(self.0) && state_inv(self.0) && spec_builtin_pools(self.0) && pools_ok(self.0.pools@) && builtins_if_present(self.0) && self.0.height.0 < u64::MAX"),
                      C("env", "forall|n: UnsealedState<C>, txx: Seq<Transaction>| next_rel(self.0, n) && txx.to_set() == block.transactions@ ==> #[trigger] batch_env(n, txx)",
-                       note="C09 envelope: the arithmetic envelopes of batch application hold for the block's transactions")],
+                       note="C09 envelope: the arithmetic envelopes of batch application hold for the block's transactions"),
+                     C("env2", "forall|n: UnsealedState<C>, txx: Seq<Transaction>, mid: UnsealedState<C>| next_rel(self.0, n) && txx.to_set() == block.transactions@ && #[trigger] batch_result(n, txx, mid) ==> seal_env(mid)",
+                       note="C09 envelope: the arithmetic envelopes of the settlement phases of sealing hold for the block's transactions")],
            ensures=[C("accepted", "res is Ok ==> spec_header(res->Ok_0.0) == block.header && res->Ok_0.1 == block.proposer_action && block_applied(self.0, *block, res->Ok_0.0)", "C06", "C03"),
                     C("wrong_header", "res is Err && res->Err_0 is WrongHeader ==> exists|r: UnsealedState<C>| #[trigger] block_applied(self.0, *block, r) && spec_header(r) != block.header", "C06")],
            rewrites=[("R3", 0), ("ANF", "collect", 0, 3, {1: "proof { assert(__c1@ =~= derefseq(__c0@)); assert(__c1@.no_duplicates() && __c1@.to_set() == block.transactions@); }"})],
